@@ -150,6 +150,7 @@ class Executor:
         env = self.make_inputs()
         self.inputs = dict(env)
         self.env0 = dict(env)
+        self.param_names = {a.arg for a in self.fn.args.args + self.fn.args.kwonlyargs + self.fn.args.posonlyargs}
         # preconditions
         for r in self.c.requires:
             self.pc.append(self.spec(r, env))
@@ -2249,7 +2250,10 @@ class Executor:
                 self.oblige("post", goal, self.fn, label=lab)
                 continue
             try:
-                goal = self.spec(post, env, extra)
+                # a parameter name in a postcondition denotes the ARGUMENT (its binding at entry; for objects the post-state of that object), as in JML:
+                # a function that rebinds a parameter (`x = int(x)`, `if x is None: x = ...`) cannot make a clause about its argument speak of the
+                # rebound local instead
+                goal = self.spec(post, {**env, **{k_: v_ for k_, v_ in self.env0.items() if k_ in self.param_names}}, extra)
             except Unsupported as e:
                 # this clause cannot be evaluated on this exit (typically: it reads a field of a value that the code under test has replaced by
                 # something of another kind) - undecided for this clause, the remaining clauses are still checked
